@@ -25,6 +25,16 @@ CHECKS = {
         note='Lean kernel + standard axioms; Model/VData.lean is hand-written and tied to the C only by the correspondence run (differential-testing strength); '
              'fault-free allocation (faults are C12); UBSan nonnull-attribute (zero-length memcpy/memset on NULL) deliberately not counted.',
         ref='DESIGN.md §6 C15'),
+    'C05': dict(
+        technique='Lean 4 proof: dispatch table regenerated from the C source and decided entry by entry (decide) + theorems on a hand model of the control flow + correspondence run + per-frequency vnaconv oracle',
+        text='tr_tables re-extracts conversion_table, the enum codes and the six function-pointer groups from vnadata_convert.c on every run; '
+             'dispatch_correct decides all 121 entries against the function named by the manual with its own calling convention. On the hand model: '
+             'refused conversions change nothing, in-place conversion stores conv(cells_f, z0_f) for every frequency and keeps the array invariant (so '
+             'conversion to Zin leaves only initial values in hidden storage). The model and the compiled C are run on all 121 pairs x shapes x z0 '
+             'modes x in-place/into, compared with each other and with the real vnaconv functions applied per frequency; chaining A->B->C = A->C.',
+        note='Lean kernel + standard axioms; tools/tr_tables.py + clang AST; Model/VConvert.lean hand-written, tied by correspondence; numeric conversions are C04; '
+             'in-place == out-of-place is checked on runs (digest equality), not yet a theorem.',
+        ref='DESIGN.md §6 C05'),
 }
 PENDING = {}
 ALL = ['C%02d' % i for i in range(1, 21)]
